@@ -39,6 +39,14 @@ Theorem C08_broadcast (h : sstate F PS) now n msg :
           (filter (fun d => negb (Nat.eqb d n) && in_range A h n d) (seq 0 (c_nnodes cfg))), Ok).
 Proof. apply broadcast_spec. Qed.
 
+(** A raw BROADCAST command that carries a destination field: the destination is ignored (it is
+    still a broadcast to everybody else), except that naming oneself raises. *)
+Theorem C08_broadcast_with_destination (h : sstate F PS) now n msg d :
+  has_comm cfg = true ->
+  do_action A cfg h now n (ABcastDst msg d) =
+  if Nat.eqb d n then (h, [], ErrComm) else do_action A cfg h now n (ABroadcast msg).
+Proof. intros Hc. simpl. rewrite Hc. simpl. destruct (Nat.eqb d n); reflexivity. Qed.
+
 (** A delivery event calls handle_packet on its destination only, once, with the payload it
     carries, at the event's time. *)
 Theorem C08_delivery_callback (h : sstate F PS) now src dst msg :
@@ -52,7 +60,7 @@ Theorem C08_only_sender_creates_deliveries (h : sstate F PS) now n a :
   forall ts p, In (ts, p) (snd (fst (do_action A cfg h now n a))) ->
     (exists name id, p = EvTimer n name id) \/ (exists d msg, p = EvDeliver n d msg /\ d <> n).
 Proof.
-  destruct a as [name ts0|name|msg dst|msg|p0|p0|s0|r0|b0]; simpl.
+  destruct a as [name ts0|name|msg dst|msg|msg dst|p0|p0|s0|r0|b0]; simpl.
   - destruct (negb (has_timer cfg)); [intros ? ? []|]. destruct (fltb A ts0 now); [intros ? ? []|].
     simpl. intros ts' p' [[= <- <-]|[]]. left. eauto.
   - destruct (negb (has_timer cfg)); intros ? ? [].
@@ -62,6 +70,10 @@ Proof.
     destruct Ht as ([->| ->] & _); [intros ? ? []|]. intros ts' p' [[= <- <-]|[]]. right. exists d, msg. split; [reflexivity|].
     apply Nat.eqb_neq. exact Ed.
   - destruct (negb (has_comm cfg)); [intros ? ? []|].
+    pose proof (broadcast_reqs A cfg h now n msg (seq 0 (c_nnodes cfg))) as Hb.
+    destruct (broadcast A cfg h now n msg (seq 0 (c_nnodes cfg))) as [h1 q]. simpl.
+    destruct Hb as (Hb & _). intros ts' p' Hin. destruct (Hb _ Hin) as (d & _ & Hne & [= -> ->]). right. eauto.
+  - destruct (negb (has_comm cfg)); [intros ? ? []|]. destruct (Nat.eqb dst n); [intros ? ? []|].
     pose proof (broadcast_reqs A cfg h now n msg (seq 0 (c_nnodes cfg))) as Hb.
     destruct (broadcast A cfg h now n msg (seq 0 (c_nnodes cfg))) as [h1 q]. simpl.
     destruct Hb as (Hb & _). intros ts' p' Hin. destruct (Hb _ Hin) as (d & _ & Hne & [= -> ->]). right. eauto.
@@ -77,5 +89,6 @@ End C08.
 Print Assumptions C08_unicast.
 Print Assumptions C08_one_copy.
 Print Assumptions C08_broadcast.
+Print Assumptions C08_broadcast_with_destination.
 Print Assumptions C08_delivery_callback.
 Print Assumptions C08_only_sender_creates_deliveries.
